@@ -43,6 +43,7 @@ from .rvltl import (
     atoms_of,
     b4val,
     driver_frame,
+    guarded,
     py_sat,
     sat,
     short_of,
@@ -135,7 +136,10 @@ def register_constructors(reg):
         o.fields["is_temporal"] = False
         return o
 
-    def replay_ctor(inputs, clause):
+    def replay_ctor_for(only):
+        return lambda inputs, clause: replay_ctor(inputs, clause, only)
+
+    def replay_ctor(inputs, clause, only=None):
         import rv_ltl
         import scenic.core.propositions as sp
 
@@ -155,6 +159,8 @@ def register_constructors(reg):
             ("Or", sp.Or([x, y, z]), rv_ltl.Or, dict(ops=(x, y, z))),
         ]
         for name, node, want, flds in checks:
+            if only is not None and name != only:
+                continue
             if type(node.ltl_node) is not want:
                 return f"propositions.{name} builds an rv_ltl.{type(node.ltl_node).__name__} node (expected rv_ltl.{want.__name__})"
             for k, v in flds.items():
@@ -166,6 +172,8 @@ def register_constructors(reg):
                     return f"propositions.{name}: rv_ltl node field `{k}` is not the node of the corresponding operand (operands swapped?)"
             if node.is_temporal != (name in TEMPORAL_CLASSES):
                 return f"propositions.{name}.is_temporal == {node.is_temporal}"
+        if only not in (None, "Atomic"):
+            return None
         a = sp.Atomic(lambda: True, 7)
         if type(a.ltl_node) is not rv_ltl.Atomic or a.ltl_node.identifier != "7":
             return f"propositions.Atomic(…, 7) builds {type(a.ltl_node).__name__} with identifier {getattr(a.ltl_node, 'identifier', None)!r}"
@@ -205,7 +213,7 @@ def register_constructors(reg):
                     eng.check(f"{cn}#ensures.children_are_the_operands", self.fields.get(of) is env.vars[p])
             eng.check(f"{cn}#ensures.is_temporal_iff_temporal_operator", self.fields.get("is_temporal") is (name in TEMPORAL_CLASSES))
 
-        reg.add(C.Contract(tgt, params={p: C.Const(None) for p in ["self"] + (["reqs"] if name in ("And", "Or") else params)}, setup=setup, post=post, inline_all=True, replay=replay_ctor, properties=("C11",)))
+        reg.add(C.Contract(tgt, params={p: C.Const(None) for p in ["self"] + (["reqs"] if name in ("And", "Or") else params)}, setup=setup, post=post, inline_all=True, replay=replay_ctor_for(name), properties=("C11",)))
 
     for nm in ("Always", "Eventually", "Next", "Not"):
         make(nm, ["req"], ["req"], ["op"])
@@ -236,7 +244,7 @@ def register_constructors(reg):
         eng.check(f"{cna}#ensures.keeps_closure_and_id", self.fields.get("closure") is env.vars["closure"] and self.fields.get("syntax_id") == env.vars["syntax_id"])
         eng.check(f"{cna}#ensures.is_temporal_iff_temporal_operator", self.fields.get("is_temporal") is False)
 
-    reg.add(C.Contract(tgt, params=dict(self=C.Const(None), closure=C.Const(None), syntax_id=C.Const(None)), setup=setup_atomic, post=post_atomic, inline_all=True, env=STR_ENV, replay=replay_ctor, properties=("C11",)))
+    reg.add(C.Contract(tgt, params=dict(self=C.Const(None), closure=C.Const(None), syntax_id=C.Const(None)), setup=setup_atomic, post=post_atomic, inline_all=True, env=STR_ENV, replay=replay_ctor_for("Atomic"), properties=("C11",)))
 
 
 # ================================================================================================ (2) flatten / atomics
@@ -296,7 +304,12 @@ def register_structure(reg):
 
             def rn(n, path):
                 for k in path:
-                    n = n.children[k]
+                    if isinstance(n, (sp.And, sp.Or)):
+                        n = n.reqs[k]
+                    elif isinstance(n, (sp.Until, sp.Implies)):
+                        n = n.lhs if k == 0 else n.rhs
+                    else:
+                        n = n.req
                 return n
 
             allnodes = [rn(root, p) for p in preorder(TREE)]
@@ -460,7 +473,7 @@ def register_semantics(reg):
         clock = [0]
         closures = {x: BuiltinFn("closure_" + x, lambda x=x: w[x][clock[0]]) for x in names}  # reads the CURRENT step only
         verdicts = []
-        with driver_frame(I, holder["c"], module=P):
+        with guarded(I, cn), driver_frame(I, holder["c"], module=P):
             tree = build_scenic(I, f, closures, [0])
             mon = I.call_function(I.find_method(tree.cls, "create_monitor"), [tree], {})
             upd = I.find_method(mon.cls, "update")
